@@ -1,8 +1,10 @@
 mod alloc;
 mod c04;
+mod c08;
 mod c09;
 mod c11;
 mod c12;
+mod c19;
 mod sched;
 mod canon;
 mod engine;
@@ -53,6 +55,8 @@ fn main() {
                 "C04" => c04::run_shard(&ctx, &mut rep),
                 "C12" => c12::run_shard(&ctx, &mut rep),
                 "C09" => c09::run_shard(&ctx, &mut rep),
+                "C08" => c08::run_shard(&ctx, &mut rep),
+                "C19" => c19::run_shard(&ctx, &mut rep),
                 _ => {
                     eprintln!("unknown property");
                     std::process::exit(2);
@@ -76,6 +80,8 @@ fn main() {
                 "C04" => c04::replay(&j["scenario"]),
                 "C12" => c12::replay(&j["scenario"]),
                 "C09" => c09::replay(&j["scenario"]),
+                "C08" => c08::replay(&j["scenario"]),
+                "C19" => c19::replay(&j["scenario"]),
                 _ => Err(format!("unknown property {}", prop)),
             };
             match r {
@@ -102,7 +108,7 @@ fn main() {
     }
 }
 
-const PROPS: &[&str] = &["C04", "C09", "C11", "C12"];
+const PROPS: &[&str] = &["C04", "C08", "C09", "C11", "C12", "C19"];
 
 /// Acceptance tests of the seams themselves, run at set-up.
 fn setup() -> i32 {
@@ -213,6 +219,8 @@ fn meta_of(prop: &str) -> Option<engine::CheckMeta> {
         "C04" => Some(c04::meta()),
         "C12" => Some(c12::meta()),
         "C09" => Some(c09::meta()),
+        "C08" => Some(c08::meta()),
+        "C19" => Some(c19::meta()),
         _ => None,
     }
 }
